@@ -118,8 +118,11 @@ func TestVerifC08KnownRDMAIdle(t *testing.T) {
 func TestVerifC08KnownDualStackImbalance(t *testing.T) {
 	c02Witness(t, "C08", "C08-dual-stack-imbalance",
 		"dual stack: demand, idle count (IPv4 only) and surplus are computed per family while pods need both families on one interface; with unequal idle IPv4/IPv6 counts on an interface the controller tops IPv6 up to pool min and releases it again every pass (or leaves a pod unserved although capacity is spare)",
-		`{"mode":"C08","node":{"v4":true,"v6":true,"adapters":5,"v4_per":2,"v6_per":2,"min":3,"max":3,"vsw":[{"free":500}],"policy":"ordered"},"slots":[{},{},{}],"ops":[{"kind":"reconcile","b":3}]}`)
+		`{"mode":"C08","node":{"v4":true,"v6":true,"adapters":4,"v4_per":2,"v6_per":2,"min":1,"max":1,"vsw":[{"free":500}],"policy":"ordered","synced":true},
+		  "pre":[{"type":"secondary","n4":2,"n6":2,"rec":"exact","binds":[{"i4":0,"i6":0,"slot":0,"rec":"full","alive":true,"reports":"both"}]},{"type":"secondary","n4":1,"n6":0,"rec":"exact"}],
+		  "slots":[{},{},{}],"ops":[{"kind":"reconcile","b":3},{"kind":"create","a":1},{"kind":"reconcile","b":2}]}`)
 }
+
 
 func TestVerifC08KnownLostWrite(t *testing.T) {
 	c02Witness(t, "C08", "C08-lost-write-no-resync",
